@@ -31,7 +31,7 @@ import copy
 
 from ..core import AnalysisError, norm, short
 from ..cfg import expand_conds
-from ..effects import Flow, slot_key, effects_in
+from ..effects import Flow, slot_key, effects_in, callee_of
 from ..astutil import argn
 from .. import layers as layers_
 from . import chain
@@ -76,22 +76,262 @@ def _kwarg_name(fi):
     return a.kwarg.arg if a.kwarg is not None else None
 
 
-def popped_flags(fi, key):
-    """(local names bound to ``<**kw>.pop(key, default)``, [pop calls]) in fi."""
-    kw = _kwarg_name(fi)
-    pops = [c for c in walk_body(fi.node) if isinstance(c, ast.Call) and isinstance(c.func, ast.Attribute) and c.func.attr == 'pop'
-            and norm(c.func.value) == kw and c.args and isinstance(c.args[0], ast.Constant) and c.args[0].value == key]
-    names = set()
-    for s in stmts_of(fi.node):
-        if isinstance(s, ast.Assign) and s.value in pops:
-            for t in s.targets:
-                if isinstance(t, ast.Name):
-                    names.add(t.id)
-    return names, pops
+class Flags(object):
+    """Bind keywords of a ``**kw`` function by role: which expressions stand for ``kw.pop(K, D)``.
+
+    Recognised: the pop call itself, locals (chains of plain copies, tuple packing) assigned from it, and the spelled-out
+    default ``x = D`` ... ``if K in kw: x = kw.pop(K)``."""
+
+    def __init__(self, fl, fi, repo=None):
+        self.fl, self.fi = fl, fi
+        self.repo = repo if repo is not None else fi.mod.repo
+        self.kw = _kwarg_name(fi)
+        self._cache = {}
+
+    def _table(self, gen_target, gen_iter, elt_or_value):
+        """``kw.pop(n, d)`` driven by ``for n, d in TABLE`` with TABLE a module-level constant of (name, default) pairs:
+        the list of pairs, else None."""
+        if not (isinstance(gen_target, (ast.Tuple, ast.List)) and len(gen_target.elts) == 2 and all(isinstance(e, ast.Name) for e in gen_target.elts)):
+            return None
+        n, d = gen_target.elts[0].id, gen_target.elts[1].id
+        c = elt_or_value
+        if not (isinstance(c, ast.Call) and isinstance(c.func, ast.Attribute) and c.func.attr == 'pop' and norm(c.func.value) == self.kw and
+                [norm(a) for a in c.args] == [n, d] and not c.keywords):
+            return None
+        tab = self.repo.try_fold(gen_iter, self.fi.mod)
+        if isinstance(tab, dict):
+            tab = list(tab.items())
+        if not isinstance(tab, (tuple, list)) or not all(isinstance(p, (tuple, list)) and len(p) == 2 and isinstance(p[0], str) for p in tab):
+            return None
+        return [(p[0], p[1]) for p in tab]
+
+    def _table_entry(self, expr, at):
+        fl = self.fl
+        # a, b, c = [kw.pop(n, d) for n, d in TABLE]
+        k = slot_key(expr)
+        if k is not None:
+            ds = fl.reaching(k, at)
+            if len(ds) == 1 and ds[0].kind == 'assign' and isinstance(ds[0].idx, int) and ds[0].idx >= 0:
+                v = ds[0].value
+                if isinstance(v, ast.Call) and call_name(v) in ('list', 'tuple') and len(v.args) == 1:
+                    v = v.args[0]
+                if isinstance(v, (ast.ListComp, ast.GeneratorExp)) and len(v.generators) == 1 and not v.generators[0].ifs:
+                    tab = self._table(v.generators[0].target, v.generators[0].iter, v.elt)
+                    tg = [t for t in ds[0].stmt.targets if isinstance(t, (ast.Tuple, ast.List))]
+                    if tab is not None and tg and len(tg[0].elts) == len(tab) and not any(isinstance(e, ast.Starred) for e in tg[0].elts):
+                        return tab[ds[0].idx]
+            return None
+        # opts = {}; for n, d in TABLE: opts[n] = kw.pop(n, d) ... opts['key']      (or a dict comprehension)
+        if isinstance(expr, ast.Subscript) and isinstance(expr.value, ast.Name) and isinstance(expr.slice, ast.Constant):
+            dv = expr.value.id
+            d = fl.single_def(dv, at)
+            if d is None:
+                return None
+            tab = None
+            if isinstance(d.value, ast.DictComp) and len(d.value.generators) == 1 and not d.value.generators[0].ifs and \
+                    norm(d.value.key) == norm(d.value.generators[0].target.elts[0] if isinstance(d.value.generators[0].target, ast.Tuple) else None):
+                tab = self._table(d.value.generators[0].target, d.value.generators[0].iter, d.value.value)
+            elif isinstance(d.value, ast.Dict) and not d.value.keys:
+                fills = [e for e in effects_in(self.fi.node) if e.root == dv]
+                loops = [l for l in stmts_of(self.fi.node) if isinstance(l, ast.For) and len(l.body) == 1 and not l.orelse and isinstance(l.body[0], ast.Assign)
+                         and len(l.body[0].targets) == 1 and isinstance(l.body[0].targets[0], ast.Subscript) and norm(l.body[0].targets[0].value) == dv]
+                if len(fills) == 1 and len(loops) == 1 and fills[0].node is loops[0].body[0] and isinstance(loops[0].target, ast.Tuple) and \
+                        norm(loops[0].body[0].targets[0].slice) == norm(loops[0].target.elts[0]) and \
+                        fl.cfg.must_pass(fl.cfg.nodes_of(loops[0]), fl.cfg.entry, fl.cfg.nodes_of(at)):
+                    tab = self._table(loops[0].target, loops[0].iter, loops[0].body[0].value)
+            if tab is not None:
+                hit = [p for p in tab if p[0] == expr.slice.value]
+                if len(hit) == 1:
+                    return hit[0]
+        return None
+
+    def _pop(self, e):
+        """(key, default expr or None) when ``e`` is ``kw.pop('key'[, default])``"""
+        if isinstance(e, ast.Call) and isinstance(e.func, ast.Attribute) and e.func.attr == 'pop' and norm(e.func.value) == self.kw and \
+                e.args and isinstance(e.args[0], ast.Constant) and isinstance(e.args[0].value, str) and not e.keywords and len(e.args) <= 2:
+            return e.args[0].value, (e.args[1] if len(e.args) == 2 else None)
+        return None
+
+    def pops(self, key):
+        return [c for c in walk_body(self.fi.node) if self._pop(c) and self._pop(c)[0] == key]
+
+    def key_of(self, expr, at=None):
+        """(key, default expr) when ``expr`` (evaluated at ``at``) is the value of bind keyword ``key``; None otherwise."""
+        ck = (id(expr), id(at))
+        if ck not in self._cache:
+            self._cache[ck] = self._key_of(expr, at)
+        return self._cache[ck]
+
+    def _key_of(self, expr, at):
+        if at is None:
+            at = self.fl.stmt_of(expr)
+        direct = self._pop(expr)
+        if direct is not None:
+            return direct if direct[1] is not None else None
+        if at is None:
+            return None
+        te = self._table_entry(expr, at)
+        if te is not None:
+            return te[0], ast.Constant(value=te[1])
+        if slot_key(expr) is None:
+            return None
+        lv = self.fl.leaves(expr, at)
+        if len(lv) == 1 and not lv[0].opaque and isinstance(lv[0].value, ast.Subscript) and isinstance(lv[0].stmt, ast.AST):
+            te = self._table_entry(lv[0].value, lv[0].stmt)
+            if te is not None:
+                return te[0], ast.Constant(value=te[1])
+        popped = [(l, self._pop(l.value)) for l in lv if not l.opaque and self._pop(l.value)]
+        consts = [l for l in lv if not l.opaque and isinstance(l.value, ast.Constant)]
+        if len(lv) == 1 and len(popped) == 1 and popped[0][1][1] is not None:
+            return popped[0][1]
+        if len(lv) == 2 and len(popped) == 1 and len(consts) == 1 and popped[0][1][1] is None:
+            key = popped[0][1][0]
+            # x = D ... if 'key' in kw: x = kw.pop('key')
+            for t, p in popped[0][0].conds:
+                if p is True and isinstance(t, ast.Compare) and len(t.ops) == 1 and isinstance(t.ops[0], ast.In) and \
+                        isinstance(t.left, ast.Constant) and t.left.value == key and norm(t.comparators[0]) == self.kw:
+                    return key, consts[0].value
+        return None
+
+    def defaults(self, key):
+        """Default expressions of every expression in the function that stands for bind keyword ``key``."""
+        seen = []
+        for n in walk_body(self.fi.node):
+            if isinstance(n, (ast.Call, ast.Subscript)) or (isinstance(n, ast.Name) and isinstance(n.ctx, ast.Load)):
+                kv = self.key_of(n)
+                if kv is not None and kv[0] == key and not any(kv[1] is x or norm(kv[1]) == norm(x) for x in seen):
+                    seen.append(kv[1])
+        return seen
+
+    def default_is(self, key, value):
+        """True / False: the keyword defaults to the constant ``value`` everywhere / somewhere not; None: the keyword is
+        not read in a recognised way at all."""
+        ds = self.defaults(key)
+        if not ds:
+            return None
+        return all(isinstance(d, ast.Constant) and type(d.value) is type(value) and d.value == value for d in ds)
 
 
-def _is_flag(text, names, pops):
-    return text in names or text in set(norm(p) for p in pops)
+class Unknown(Exception):
+    pass
+
+
+_POS_CMP = {ast.IsNot: ast.Is, ast.NotEq: ast.Eq, ast.NotIn: ast.In}
+
+
+class Prop(object):
+    """Propositional reading of path conditions: tests become formulas over atoms (canonical texts of calls, comparisons,
+    names; bind keywords by role), locals that name a condition are expanded -- also when they are set by an if-chain --
+    and implications are decided by truth table."""
+
+    def __init__(self, fl, flags=None):
+        self.fl, self.flags = fl, flags
+        self._memo = {}
+
+    # formulas: ('c', bool) | ('a', text) | ('n', f) | ('&', [f..]) | ('|', [f..])
+    def formula(self, e, at=None, depth=0):
+        fl = self.fl
+        if at is None:
+            at = fl.stmt_of(e)
+        if depth > 8:
+            raise Unknown('condition nested too deeply')
+        if isinstance(e, ast.Constant):
+            return ('c', bool(e.value))
+        if isinstance(e, ast.UnaryOp) and isinstance(e.op, ast.Not):
+            return ('n', self.formula(e.operand, at, depth + 1))
+        if isinstance(e, ast.BoolOp):
+            return ('&' if isinstance(e.op, ast.And) else '|', [self.formula(v, at, depth + 1) for v in e.values])
+        if isinstance(e, ast.IfExp):
+            t = self.formula(e.test, at, depth + 1)
+            return ('|', [('&', [t, self.formula(e.body, at, depth + 1)]), ('&', [('n', t), self.formula(e.orelse, at, depth + 1)])])
+        if isinstance(e, ast.Compare) and len(e.ops) == 1 and type(e.ops[0]) in _POS_CMP:
+            pos = ast.Compare(left=e.left, ops=[_POS_CMP[type(e.ops[0])]()], comparators=e.comparators)
+            return ('n', ('a', fl.text(pos, at)))
+        if self.flags is not None and isinstance(e, (ast.Name, ast.Call, ast.Subscript)):
+            kv = self.flags.key_of(e, at)
+            if kv is not None:
+                return ('a', 'keyword:%s' % kv[0])
+        k = slot_key(e)
+        if k is not None and at is not None:
+            ds = fl.reaching(k, at)
+            real = [d for d in ds if d.kind != 'entry']
+            if len(ds) == 1 and real and fl.single_def(k, at) is not None:
+                d = fl.single_def(k, at)
+                if isinstance(d.value, (ast.BoolOp, ast.UnaryOp, ast.Compare, ast.IfExp, ast.Constant, ast.Call, ast.Name, ast.Attribute)):
+                    return self.formula(d.value, d.stmt, depth + 1)
+            elif len(real) > 1 and len(real) == len(ds):
+                # set by an if-chain: the disjunction over the definitions of (their conditions and their value);
+                # only when the conditions are mutually exclusive and exhaustive (checked by truth table)
+                arms = []
+                lvs = fl.leaves(e, at)
+                if any(lf.opaque for lf in lvs):
+                    return ('a', fl.text(e, at))        # a value of unknown parts: a free atom assumes nothing
+                for lf in lvs:
+                    cs = [self.cond(t, p) for t, p in lf.conds]
+                    arms.append((('&', cs), self.formula(lf.value, lf.stmt if isinstance(lf.stmt, ast.AST) else at, depth + 1)))
+                guards = [g for g, _ in arms]
+                common = self._common(guards)
+                guards = [('&', [c for c in g[1] if c not in common]) for g in guards]
+                if not self._partition(guards):
+                    return ('a', fl.text(e, at))        # not a clean case split: a free atom assumes nothing
+                return ('|', [('&', [g, v]) for g, (_, v) in zip(guards, arms)])
+        return ('a', fl.text(e, at))
+
+    def cond(self, t, p):
+        f = self.formula(t)
+        return f if p else ('n', f)
+
+    def conds(self, cs):
+        return [self.cond(t, p) for t, p in cs]
+
+    @staticmethod
+    def _common(guards):
+        if not guards:
+            return []
+        return [c for c in guards[0][1] if all(c in g[1] for g in guards[1:])]
+
+    def atoms(self, f, acc=None):
+        acc = set() if acc is None else acc
+        if f[0] == 'a':
+            acc.add(f[1])
+        elif f[0] == 'n':
+            self.atoms(f[1], acc)
+        elif f[0] in '&|':
+            for x in f[1]:
+                self.atoms(x, acc)
+        return acc
+
+    def ev(self, f, env):
+        k = f[0]
+        if k == 'c':
+            return f[1]
+        if k == 'a':
+            return env[f[1]]
+        if k == 'n':
+            return not self.ev(f[1], env)
+        if k == '&':
+            return all(self.ev(x, env) for x in f[1])
+        return any(self.ev(x, env) for x in f[1])
+
+    def _rows(self, fs):
+        names = sorted(set().union(*[self.atoms(f) for f in fs])) if fs else []
+        if len(names) > 14:
+            raise Unknown('too many atoms')
+        for i in range(1 << len(names)):
+            yield dict((n, bool(i >> j & 1)) for j, n in enumerate(names))
+
+    def _partition(self, guards):
+        for env in self._rows(guards):
+            if sum(1 for g in guards if self.ev(g, env)) != 1:
+                return False
+        return True
+
+    def implies(self, premises, conclusion):
+        """premises (list of formulas, conjunction) => conclusion, on every assignment of the atoms"""
+        for env in self._rows(list(premises) + [conclusion]):
+            if all(self.ev(p, env) for p in premises) and not self.ev(conclusion, env):
+                return False
+        return True
 
 
 def _subst_name(expr, name, const):
@@ -191,12 +431,15 @@ class KwDict(object):
                 self.env[var].insert(0, ('key', k.value, v, st))
                 self.stmts.append(st)
                 continue
-            if isinstance(st, ast.For) and isinstance(st.target, ast.Name) and isinstance(st.iter, (ast.Tuple, ast.List)) and \
-                    all(isinstance(e, ast.Constant) for e in st.iter.elts) and len(st.body) == 1 and not st.orelse:
+            if isinstance(st, ast.For) and isinstance(st.target, ast.Name) and len(st.body) == 1 and not st.orelse:
+                # for name in ('a', 'b') / in MODULE_LEVEL_TUPLE: d.setdefault(name, f(name))
+                names = self.fi.mod.repo.try_fold(st.iter, self.fi.mod)
                 d = self._default_stmt(st.body[0])
-                if d is not None and norm(d[1]) == st.target.id:
-                    for e in st.iter.elts:
-                        self.env[d[0]].insert(0, ('key', e.value, _subst_name(d[2], st.target.id, e.value), st))
+                if d is not None and norm(d[1]) == st.target.id and isinstance(names, (tuple, list)) and all(isinstance(x, str) for x in names):
+                    from ..normalize import Canon
+                    for x in names:
+                        v = Canon().visit(_subst_name(d[2], st.target.id, x))
+                        self.env[d[0]].insert(0, ('key', x, ast.fix_missing_locations(ast.copy_location(v, d[2])), st))
                     self.stmts.append(st)
                     continue
             if isinstance(st, ast.Assign) and len(st.targets) == 1 and isinstance(st.targets[0], ast.Name):
@@ -265,7 +508,17 @@ class KwDict(object):
                 return ('caller', None, None)
         if top is None:
             return ('absent', None, None)
-        return ('forced', self.layers[top][2], self.layers[top][3])
+        v = self.layers[top][2]
+        # d[k] = kw.get(k, default) written over a copy of kw: the caller's value if given, else the default
+        if isinstance(v, ast.Call) and isinstance(v.func, ast.Attribute) and v.func.attr == 'get' and len(v.args) == 2 and not v.keywords and \
+                isinstance(v.args[0], ast.Constant) and v.args[0].value == key and norm(v.func.value) in self.env:
+            src = self.env[norm(v.func.value)]
+            if src == [('caller',)]:
+                below = [l for l in self.layers[:top] if l[0] != 'caller' and not (l[0] == 'key' and l[1] != key)]
+                if not below:
+                    return ('default', v.args[1], self.layers[top][3])
+            return ('unknown', None, None)
+        return ('forced', v, self.layers[top][3])
 
 
 def _walk_all(fnode):
@@ -291,6 +544,10 @@ def _strip_copy(e):
 
 
 # ------------------------------------------------------------------------------------------------ R10.a
+def _is_comp(n):
+    return isinstance(n, (ast.ListComp, ast.GeneratorExp)) and len(n.generators) == 1 and not n.generators[0].is_async
+
+
 def _r10a(rep, app, route):
     ba = app.func('SubApplication.bind_all')
     fl = Flow(ba)
@@ -298,73 +555,100 @@ def _r10a(rep, app, route):
     fors = [s for s in stmts_of(ba.node) if isinstance(s, (ast.For, ast.While))]
     comps = [n for n in walk_body(ba.node) if isinstance(n, (ast.ListComp, ast.GeneratorExp, ast.SetComp, ast.DictComp))]
     its = fors + comps
-    it = its[0] if len(its) == 1 else None
-    it_expr = None
-    if isinstance(it, ast.For):
-        it_expr = it.iter
-    elif isinstance(it, (ast.ListComp, ast.GeneratorExp)) and len(it.generators) == 1 and not it.generators[0].is_async:
-        it_expr = it.generators[0].iter
-    it_text = fl.text(_strip_copy(it_expr), stmt_of(app, it_expr)) if it_expr is not None else None
-    ok = it_text == 'self.app.routes'
+    binds = [c for c in walk_body(ba.node) if isinstance(c, ast.Call) and isinstance(c.func, ast.Attribute) and c.func.attr == 'bind']
+    if not binds:
+        raise AnalysisError('SubApplication.bind_all: no .bind(...) call found (re-binding delegated to code that could not be followed)')
+    b = binds[0] if len(binds) == 1 else None
+    it = _enclosing_iteration(app, b, ba.node) if b is not None else None
+    is_loop = isinstance(it, ast.For)
+    # the iterated sequence, through named temporaries, list()/tuple() copies and order-preserving pre-filters
+    # ([rt for rt in <seq> if <test>]); every loop / comprehension of the function must belong to this chain
+    chain_its, prefilters = [it], []
+    it_text = None
+    if is_loop or _is_comp(it):
+        cur = it.iter if is_loop else it.generators[0].iter
+        at = stmt_of(app, cur)
+        for _ in range(4):
+            e, at2 = _deref(fl, _strip_copy(cur), at)
+            e = _strip_copy(e)
+            g = e.generators[0] if _is_comp(e) else None
+            if g is not None and isinstance(e.elt, ast.Name) and isinstance(g.target, ast.Name) and e.elt.id == g.target.id:
+                chain_its.append(e)
+                prefilters.append((g.target.id, list(g.ifs)))
+                cur, at = g.iter, stmt_of(app, g.iter)
+                continue
+            it_text = fl.text(e, at2 if isinstance(at2, ast.AST) else at)
+            break
+    ok = it_text == 'self.app.routes' and all(any(x is y for y in chain_its) for x in its)
     rep.check('R10.a', fkey(ba, 'iterates inner routes'), ok, 'walks self.app.routes directly (inner order preserved)' if ok else
-              'bind_all does not iterate self.app.routes directly: %s' % (it_text if it_text else [short(getattr(x, 'iter', x), 50) for x in its]), app,
+              'bind_all does not iterate self.app.routes directly: %s' % (it_text if it_text and it_text != 'self.app.routes' else
+                                                                          [short(getattr(x, 'iter', x), 50) for x in its]), app,
               it if isinstance(it, ast.stmt) else (stmt_of(app, it) if it is not None else ba.node))
     if not ok:
         return
-    is_loop = isinstance(it, ast.For)
     rt = norm(it.target if is_loop else it.generators[0].target)
-    binds = [c for c in walk_body(ba.node) if isinstance(c, ast.Call) and isinstance(c.func, ast.Attribute) and c.func.attr == 'bind']
-    b = binds[0] if len(binds) == 1 else None
     kwv = None
-    ok = b is not None and norm(b.func.value) == rt and len(b.args) == 1 and norm(b.args[0]) == ba.params()[1] and \
-        len(b.keywords) == 1 and b.keywords[0].arg is None and isinstance(b.keywords[0].value, ast.Name) and \
-        _enclosing_iteration(app, b, ba.node) is it
-    where = b if b is not None else (it if is_loop else stmt_of(app, it))
+    ok = norm(b.func.value) == rt and len(b.args) == 1 and norm(b.args[0]) == ba.params()[1] and \
+        len(b.keywords) == 1 and b.keywords[0].arg is None and isinstance(b.keywords[0].value, ast.Name)
+    where = b
     rets = returns_of(ba)
     appends = []
     if ok:
         kwv = b.keywords[0].value.id
+        rv = norm(rets[0].value) if len(rets) == 1 and isinstance(rets[0].value, ast.Name) else None
+        growers = [e for e in effects_in(ba.node) if e.root == rv and e.kind == 'mutcall'] if rv else []
         if is_loop:
             # the bound route reaches the returned list through exactly one append in the loop
-            rv = norm(rets[0].value) if len(rets) == 1 and isinstance(rets[0].value, ast.Name) else None
-            growers = [e for e in effects_in(ba.node) if e.root == rv and e.kind == 'mutcall']
             appends = [e.node for e in growers if e.method == 'append' and len(e.node.args) == 1]
             ok = rv is not None and len(growers) == 1 and len(appends) == 1 and stmt_of(app, appends[0]) in stmts_of(it)
             if ok:
-                a0 = appends[0].args[0]
-                lv = fl.leaves(a0, stmt_of(app, appends[0]))
+                lv = fl.leaves(appends[0].args[0], stmt_of(app, appends[0]))
                 ok = len(lv) == 1 and lv[0].value is b
-                rdef = fl.single_def(rv, rets[0])
-                ok = ok and rdef is not None and isinstance(rdef.value, ast.List) and not rdef.value.elts
+        elif growers:
+            # ret = []; ret.extend(<comprehension>); return ret
+            g0 = growers[0]
+            ok = it.elt is b and len(growers) == 1 and g0.method == 'extend' and len(g0.node.args) == 1 and _strip_copy(g0.node.args[0]) is it and \
+                not any(stmt_of(app, g0.node) in stmts_of(l) for l in fors)
         else:
             # the comprehension (a list, or a generator materialised by list()) is what is returned
             ok = it.elt is b and bool(rets)
             for r in rets:
                 v, _ = _deref(fl, r.value, r)
                 ok = ok and _strip_copy(v) is it and (isinstance(it, ast.ListComp) or v is not it)
+        if ok and (is_loop or growers):
+            rdef = fl.single_def(rv, rets[0])
+            ok = rdef is not None and isinstance(rdef.value, ast.List) and not rdef.value.elts
     rep.check('R10.a', fkey(ba, 'append rt.bind(app, **kwargs)'), ok, 'each inner route is re-bound to the embedding application with the bind keywords' if ok else
               'bind_all does not append rt.bind(app, **kwargs) for each inner route', app, where)
     if not ok:
         return
+    # conditions under which an inner route is left out: the loop's / comprehension's own, plus those of pre-filters
+    atoms = []
+    for var, ifs in prefilters:
+        atoms += [(t, p, var) for t, p in expand_conds([(i, True) for i in ifs]) if not isinstance(t, ast.BoolOp)]
     if is_loop:
         ast_ = stmt_of(app, appends[0])
         cs = conds(ba, ast_)
-        ok = len(cs) == 1 and cs[0][1] is False and isinstance_test(cs[0][0], rt, 'NullRoute')
+        atoms += [(t, p, rt) for t, p in cs]
+        ok = True
         jumps = [s for s in stmts_of(it) if isinstance(s, (ast.Continue, ast.Break))]
         for j in jumps:
             jc = conds(ba, j)
             ok = ok and isinstance(j, ast.Continue) and len(jc) == 1 and jc[0][1] is True and isinstance_test(jc[0][0], rt, 'NullRoute')
-        rep.check('R10.a', fkey(ba, 'skips only the null route'), ok, 'only NullRoute instances are skipped' if ok else
-                  'routes are skipped under other conditions than isinstance(rt, NullRoute): %s' % '; '.join(cond_texts(cs)), app, appends[0])
+        where = appends[0]
+    else:
+        atoms += [(t, p, rt) for t, p in expand_conds([(i, True) for i in it.generators[0].ifs]) if not isinstance(t, ast.BoolOp)]
+        ok = True
+        where = stmt_of(app, it)
+    ok = ok and len(atoms) == 1 and atoms[0][1] is False and isinstance_test(atoms[0][0], atoms[0][2], 'NullRoute')
+    rep.check('R10.a', fkey(ba, 'skips only the null route'), ok, 'only NullRoute instances are skipped' if ok else
+              'routes are skipped under other conditions than isinstance(rt, NullRoute): %s' % '; '.join(cond_texts([(t, p) for t, p, _ in atoms])), app, where)
+    if is_loop:
         ap_nodes = bcfg.nodes_of(ast_)
         ok = not (set(ap_nodes) & bcfg.reach([m for n in ap_nodes for m in bcfg.succ[n]], avoid=bcfg.nodes_of(it)))
         rep.check('R10.a', fkey(ba, 'once per route'), ok, 'each inner route is re-bound once' if ok else 'an inner route can be appended twice', app, appends[0])
         use = it
     else:
-        cs = [(t, p) for t, p in expand_conds([(i, True) for i in it.generators[0].ifs]) if not isinstance(t, ast.BoolOp)]
-        ok = len(cs) == 1 and cs[0][1] is False and isinstance_test(cs[0][0], rt, 'NullRoute')
-        rep.check('R10.a', fkey(ba, 'skips only the null route'), ok, 'only NullRoute instances are skipped' if ok else
-                  'routes are skipped under other conditions than isinstance(rt, NullRoute): %s' % '; '.join(cond_texts(cs)), app, stmt_of(app, it))
         rep.ok('R10.a', fkey(ba, 'once per route'), 'each inner route is re-bound once (one element per item of a single generator)', app, stmt_of(app, it))
         use = stmt_of(app, it)
     kd = KwDict(ba, fl, kwv, [use])
@@ -375,13 +659,48 @@ def _r10a(rep, app, route):
     return kd
 
 
+def _constructions(repo, fi, cls_name, param, _depth=0):
+    """[(call, prop, formulas of the conditions, name of the entry parameter)] of the ``return <cls_name>(...)`` statements of
+    ``fi`` -- the class named directly or through a local that selects it (``factory_type = SubApplication if .. else
+    Route``) -- and of private helpers of the module whose result ``fi`` returns (followed one level; ``param`` is
+    mapped to the helper's parameter it is passed as)."""
+    fl = Flow(fi)
+    pr = Prop(fl)
+    out = []
+    for r in returns_of(fi):
+        for lf in fl.leaves(r.value, r) if r.value is not None else []:
+            v = lf.value
+            if lf.opaque or not isinstance(v, ast.Call):
+                continue
+            here = lf.stmt if isinstance(lf.stmt, ast.AST) else r
+            conds_ = list(lf.conds) + [c for c in fl.conds(r) if c not in lf.conds] + [c for c in fl.conds(here) if c not in lf.conds]
+            for cl in fl.leaves(v.func, here):
+                if not cl.opaque and norm(cl.value) == cls_name:
+                    out.append((v, pr, pr.conds(conds_ + [c for c in cl.conds if c not in conds_]), param))
+            callee = callee_of(repo, fi, v)
+            if callee is not None and callee.name.startswith('_') and _depth < 1 and not v.keywords and \
+                    not any(isinstance(a, ast.Starred) for a in v.args) and len(v.args) <= len(callee.params()):
+                passed = [i for i, a in enumerate(v.args) if norm(a) == param]
+                if len(passed) == 1:
+                    out.extend(_constructions(repo, callee, cls_name, callee.params()[passed[0]], _depth + 1))
+    return out
+
+
 def _r10a_cast(rep, app):
     crf = app.func('cast_to_route_factory')
-    fl = Flow(crf)
-    p0 = crf.params()[0]
-    sub = [r for r in returns_of(crf) if isinstance(r.value, ast.Call) and call_name(r.value) == 'SubApplication']
-    ok = len(sub) == 1 and len(sub[0].value.args) == 1 and not sub[0].value.keywords and norm(sub[0].value.args[0]) == '*%s' % p0 and \
-        any(p is True and txt == 'isinstance(%s[1], Application)' % p0 for txt, p, _ in fl.cond_texts(conds(crf, sub[0])))
+    try:
+        subs = _constructions(rep.repo, crf, 'SubApplication', crf.params()[0])
+        ok = len(subs) == 1
+        if ok:
+            call, pr, premises, p0 = subs[0]
+            ok = len(call.args) == 1 and not call.keywords and norm(call.args[0]) == '*%s' % p0 and \
+                pr.implies(premises, ('a', 'isinstance(%s[1], Application)' % p0))
+    except Unknown as e:
+        raise AnalysisError('cast_to_route_factory: conditions not understood (%s)' % e)
+    if not subs:
+        # nothing found: a result computed by a helper that could not be followed is a gap, not a judgement
+        cfl = Flow(crf)
+        _require_followed(rep.repo, crf, [l for r in returns_of(crf) if r.value is not None for l in cfl.leaves(r.value, r)], 'the route factory')
     rep.check('R10.a', fkey(crf), ok, '(prefix, Application) tuples become SubApplication(prefix, app)' if ok else
               'cast_to_route_factory no longer maps (prefix, Application) to SubApplication(*entry)', app, crf.node)
 
@@ -420,6 +739,72 @@ def _r10a_add(rep, app):
 
 
 # ------------------------------------------------------------------------------------------------ R10.b
+def _getattr_cases(fl, mod, leaf):
+    """[(object text, attribute, present?)]: the leaf flows only when ``hasattr(obj, attr)`` is / is not true -- from an explicit
+    ``hasattr`` test on the path, or from ``try: x = obj.attr / except AttributeError: x = default``."""
+    from ..astutil import handler_catches
+    out = []
+    for t, p in leaf.conds:
+        if isinstance(t, ast.Call) and call_name(t) == 'hasattr' and len(t.args) == 2 and isinstance(t.args[1], ast.Constant):
+            out.append((norm(t.args[0]), t.args[1].value, p))
+    st = leaf.stmt if isinstance(leaf.stmt, ast.AST) else None
+    par = mod.parents.get(st) if st is not None else None
+
+    def attr_read(try_):
+        if len(try_.body) == 1 and isinstance(try_.body[0], ast.Assign) and isinstance(try_.body[0].value, ast.Attribute) and \
+                not try_.orelse and not try_.finalbody and len(try_.handlers) == 1 and handler_catches(try_.handlers[0], 'AttributeError') and \
+                norm(try_.handlers[0].type) == 'AttributeError':
+            v = try_.body[0].value
+            return norm(v.value), v.attr
+        return None
+    if isinstance(par, ast.Try) and st in par.body and attr_read(par):
+        out.append(attr_read(par) + (True,))
+    if isinstance(par, ast.ExceptHandler):
+        t_ = mod.parents.get(par)
+        if isinstance(t_, ast.Try) and attr_read(t_) and len(par.body) == 1:
+            out.append(attr_read(t_) + (False,))
+    return out
+
+
+def _specialise(expected, cases):
+    """``expected`` with ``getattr(obj, 'attr', default)`` replaced by what it is when the attribute is known present / absent;
+    ``[] + x`` simplified to ``x``."""
+    known = dict(((o, a), p) for o, a, p in cases)
+
+    class S(ast.NodeTransformer):
+        def visit_Call(self, n):
+            self.generic_visit(n)
+            if call_name(n) == 'getattr' and len(n.args) == 3 and isinstance(n.args[1], ast.Constant) and (norm(n.args[0]), n.args[1].value) in known:
+                if known[(norm(n.args[0]), n.args[1].value)]:
+                    return ast.Attribute(value=n.args[0], attr=n.args[1].value, ctx=ast.Load())
+                return n.args[2]
+            return n
+
+        def visit_BinOp(self, n):
+            self.generic_visit(n)
+            if isinstance(n.op, ast.Add) and isinstance(n.left, ast.List) and not n.left.elts and isinstance(n.right, ast.List):
+                return n.right
+            return n
+    return S().visit(copy.deepcopy(expected))
+
+
+def _slot_is(fl, mod, slot, expected_text, what):
+    """The slot holds ``expected`` at exit: one value with that text, or the case split of its getattr defaults (hasattr
+    tests / try-except AttributeError).  Several values that cannot be read as such a split: analysis gap."""
+    lv = fl.leaves(_expr(slot), 'exit')
+    if not fl.defs.get(slot):
+        return False, None
+    if len(lv) == 1:
+        return (not lv[0].opaque) and fl.text(lv[0].value, lv[0].stmt) == expected_text, lv[0]
+    cases = [_getattr_cases(fl, mod, l) for l in lv]
+    if any(l.opaque for l in lv) or not all(cases):
+        raise AnalysisError('%s: %s has several definitions that are not understood as one value' % (fl.fi.qualname, what))
+    pols = set((o, a, p) for c in cases for o, a, p in c)
+    ok = all(fl.text(l.value, l.stmt) == norm(_specialise(_expr(expected_text), c)) for l, c in zip(lv, cases)) and \
+        all((o, a, not p) in pols for o, a, p in pols)
+    return ok, lv[0]
+
+
 def _single_leaf(fl, slot):
     lv = fl.leaves(_expr(slot), 'exit')
     if len(lv) == 1 and not lv[0].opaque:
@@ -432,14 +817,17 @@ def _r10b(rep, app, route):
     fl = Flow(bi)
     ps = bi.params()
     kw = _kwarg_name(bi)
-    pnames, ppops = popped_flags(bi, 'prefix')
+    flags = Flags(fl, bi)
     lf = _single_leaf(fl, 'self.pattern')
     parts = concat_parts(lf.value) if lf is not None else None
-    ok = parts is not None and len(parts) == 2 and _is_flag(norm(parts[0]), pnames, ppops) and fl.text(parts[1], lf.stmt) == '%s.pattern' % ps[1]
+    kv = flags.key_of(parts[0], lf.stmt) if parts else None
+    ok = parts is not None and len(parts) == 2 and kv is not None and kv[0] == 'prefix' and fl.text(parts[1], lf.stmt) == '%s.pattern' % ps[1]
     rep.check('R10.b', fkey(bi, 'self.pattern'), ok, 'bound pattern = prefix + (already bound) inner pattern, so prefixes compose by depth' if ok else
               'BoundRoute.pattern is not prefix + route.pattern: %s' % (short(lf.value) if lf else None), route, lf.stmt if lf else bi.node)
-    ok = len(ppops) == 1 and len(ppops[0].args) == 2 and isinstance(ppops[0].args[1], ast.Constant) and ppops[0].args[1].value == ''
-    rep.check('R10.b', fkey(bi, 'prefix default'), ok, "prefix comes from the bind keyword, default ''" if ok else 'prefix is not kwargs.pop(\'prefix\', \'\')', route, bi.node)
+    dflt = flags.default_is('prefix', '')
+    if dflt is None:
+        raise AnalysisError("BoundRoute.__init__: no read of the bind keyword 'prefix' recognised")
+    rep.check('R10.b', fkey(bi, 'prefix default'), dflt, "prefix comes from the bind keyword, default ''" if dflt else 'prefix is not kwargs.pop(\'prefix\', \'\')', route, bi.node)
     si = app.func('SubApplication.__init__')
     sfl = Flow(si)
     lf = _single_leaf(sfl, 'self.prefix')
@@ -449,12 +837,18 @@ def _r10b(rep, app, route):
     lf = _single_leaf(sfl, 'self.app')
     ok = lf is not None and sfl.text(lf.value, lf.stmt) == si.params()[2]
     rep.check('R10.b', fkey(si, 'self.app'), ok, 'the embedded application is kept as given' if ok else 'SubApplication.app is not the given application', app, si.node)
-    lf = _single_leaf(fl, 'self.unbound_route')
-    ok = lf is not None and fl.text(lf.value, lf.stmt) == "getattr(%s, 'unbound_route', %s)" % (ps[1], ps[1])
+    ok, _ = _slot_is(fl, route, 'self.unbound_route', "getattr(%s, 'unbound_route', %s)" % (ps[1], ps[1]), 'self.unbound_route')
     rep.check('R10.b', fkey(bi, 'unbound_route'), ok, 'endpoint/render always come from the original unbound route, at any depth' if ok else
               'unbound_route is not carried through re-binding', route, bi.node)
-    lf = _single_leaf(fl, 'self.bound_apps')
-    ok = lf is not None and fl.text(lf.value, lf.stmt) == "getattr(%s, 'bound_apps', []) + [%s]" % (ps[1], ps[2])
+    prev = "getattr(%s, 'bound_apps', [])" % ps[1]
+    ok, lf = _slot_is(fl, route, 'self.bound_apps', "%s + [%s]" % (prev, ps[2]), 'self.bound_apps')
+    if not ok and lf is not None and isinstance(lf.value, ast.Call) and call_name(lf.value) == 'list' and len(lf.value.args) == 1 and \
+            fl.text(lf.value.args[0], lf.stmt) == prev:
+        # a copy of the previous list, then exactly one unconditional append of the binding application
+        muts = [e for e in effects_in(bi.node) if (e.chain or [])[:2] == ['self', 'bound_apps'] and not (e.kind == 'store' and e.node is lf.stmt)]
+        cfg_ = fl.cfg
+        ok = len(muts) == 1 and muts[0].kind == 'mutcall' and muts[0].method == 'append' and [norm(a) for a in muts[0].node.args] == [ps[2]] and \
+            cfg_.must_pass(cfg_.nodes_of(stmt_of(route, muts[0].node)), cfg_.entry, cfg_.exit, normal_only=True)
     rep.check('R10.b', fkey(bi, 'bound_apps'), ok, 'bound_apps grows inner -> outer; [-1] is the serving application' if ok else
               'bound_apps is not extended with the binding application at the end', route, bi.node)
 
@@ -473,22 +867,26 @@ def _r10d(rep, app, route):
     bi = route.func('BoundRoute.__init__')
     fl = Flow(bi)
     ps = bi.params()
-    fnames, fpops = popped_flags(bi, 'rebind_render_error')
+    flags = Flags(fl, bi)
+    pr = Prop(fl, flags)
     lv = fl.leaves(_expr('self.render_error'), 'exit')
     _require_followed(repo, bi, lv, 'self.render_error')
-
-    def flag_is(leaf, pol):
-        return any(p is pol and _is_flag(norm(t), fnames, fpops) for t, p in leaf.conds)
-    from_app = [l for l in lv if not l.opaque and flag_is(l, True)]
-    from_route = [l for l in lv if not l.opaque and flag_is(l, False)]
-    ok = len(lv) == 2 and len(from_app) == 1 and len(from_route) == 1 and \
-        fl.text(from_app[0].value, from_app[0].stmt) in ("getattr(%s.error_handler, 'render_error', None)" % ps[2], '%s.error_handler.render_error' % ps[2]) and \
-        fl.text(from_route[0].value, from_route[0].stmt) == '%s.render_error' % ps[1]
+    rre = ('a', 'keyword:rebind_render_error')
+    app_values = ("getattr(%s.error_handler, 'render_error', None)" % ps[2], '%s.error_handler.render_error' % ps[2])
+    try:
+        from_app = [l for l in lv if not l.opaque and fl.text(l.value, l.stmt) in app_values]
+        from_route = [l for l in lv if not l.opaque and fl.text(l.value, l.stmt) == '%s.render_error' % ps[1]]
+        ok = bool(from_app) and bool(from_route) and len(from_app) + len(from_route) == len(lv) and \
+            all(pr.implies(pr.conds(l.conds), rre) for l in from_app) and all(pr.implies(pr.conds(l.conds), ('n', rre)) for l in from_route)
+    except Unknown as e:
+        raise AnalysisError('BoundRoute.__init__: conditions of the render_error selection not understood (%s)' % e)
     rep.check('R10.d', fkey(bi, 'render_error source'), ok, 'render_error is the binding application\'s error handler\'s (unless rebind_render_error is off)' if ok else
               'render_error is not taken from app.error_handler when re-binding: %s' % [short(l.value, 60) for l in lv], route,
-              (lv[0].stmt if lv and lv[0].stmt is not None and lv[0].stmt != 'exit' else bi.node))
-    ok = len(fpops) == 1 and len(fpops[0].args) == 2 and isinstance(fpops[0].args[1], ast.Constant) and fpops[0].args[1].value is True
-    rep.check('R10.d', fkey(bi, 'rebind_render_error default'), ok, 'rebind_render_error defaults to True' if ok else 'rebind_render_error does not default to True', route, bi.node)
+              (lv[0].stmt if lv and isinstance(lv[0].stmt, ast.AST) else bi.node))
+    dflt = flags.default_is('rebind_render_error', True)
+    if dflt is None:
+        raise AnalysisError("BoundRoute.__init__: no read of the bind keyword 'rebind_render_error' recognised")
+    rep.check('R10.d', fkey(bi, 'rebind_render_error default'), dflt, 'rebind_render_error defaults to True' if dflt else 'rebind_render_error does not default to True', route, bi.node)
     offs = []
     for m in repo.all_internal_modules():
         for n in ast.walk(m.tree):
@@ -529,9 +927,10 @@ def _r10e_plumbing(rep, app, route, kd):
     bi = route.func('BoundRoute.__init__')
     si = app.func('SubApplication.__init__')
     ba = app.func('SubApplication.bind_all')
-    names, pops = popped_flags(bi, 'rebind_render')
-    ok = len(pops) == 1 and len(pops[0].args) == 2 and isinstance(pops[0].args[1], ast.Constant) and pops[0].args[1].value is True
-    rep.check('R10.e', fkey(bi, 'rebind_render default'), ok, 'plain routes re-bind their render argument by default' if ok else 'rebind_render does not default to True', route, bi.node)
+    dflt = Flags(Flow(bi), bi).default_is('rebind_render', True)
+    if dflt is None:
+        raise AnalysisError("BoundRoute.__init__: no read of the bind keyword 'rebind_render' recognised")
+    rep.check('R10.e', fkey(bi, 'rebind_render default'), dflt, 'plain routes re-bind their render argument by default' if dflt else 'rebind_render does not default to True', route, bi.node)
     a = si.node.args
     dflt = dict(zip([x.arg for x in a.args][len(a.args) - len(a.defaults):], a.defaults))
     sfl = Flow(si)
@@ -558,68 +957,133 @@ def _r10e_plumbing(rep, app, route, kd):
               'add() does not default rebind_render from the factory (%s %s)' % (how, short(v, 40) if v is not None else ''), app, st or ad.node)
 
 
+def _newest_factory(fl, pr, route, leaf):
+    """The callee of the factory branch is the factory of the most recently bound application that has a callable one:
+    ``first(reversed([.. for ba in self.bound_apps]), key=callable)`` or the equivalent search loop."""
+    bound_apps = fl.aliases('self.bound_apps')
+
+    def factories_of_bound_apps(e, at):
+        e, at = _deref(fl, e, at)
+        return isinstance(e, ast.ListComp) and len(e.generators) == 1 and not e.generators[0].ifs and \
+            norm(e.generators[0].iter) in bound_apps or (isinstance(e, ast.ListComp) and len(e.generators) == 1 and not e.generators[0].ifs and
+                                                         fl.text(e.generators[0].iter, fl.stmt_of(e)) in bound_apps)
+
+    def newest_first(e, at):
+        e, at = _deref(fl, e, at)
+        return isinstance(e, ast.Call) and call_name(e) == 'reversed' and len(e.args) == 1 and not e.keywords and factories_of_bound_apps(e.args[0], at)
+    key = slot_key(leaf.value.func)
+    d = fl.single_def(key, leaf.stmt)
+    if d is not None and isinstance(d.value, ast.Call) and call_name(d.value) == 'next':
+        # next((f for f in reversed(candidates) if callable(f)), None)
+        v = d.value
+        g = v.args[0] if len(v.args) == 2 and not v.keywords and norm(v.args[1]) == 'None' else None
+        if isinstance(g, ast.GeneratorExp) and len(g.generators) == 1 and isinstance(g.generators[0].target, ast.Name):
+            var = g.generators[0].target.id
+            return norm(g.elt) == var and [norm(i) for i in g.generators[0].ifs] == ['callable(%s)' % var] and newest_first(g.generators[0].iter, d.stmt)
+        return False
+    if d is not None:
+        v = d.value
+        return isinstance(v, ast.Call) and call_name(v) == 'first' and len(v.args) >= 1 and norm(argn(v, 'key', 2)) == 'callable' and \
+            (argn(v, 'default', 1) is None or norm(argn(v, 'default', 1)) == 'None') and newest_first(v.args[0], d.stmt)
+    # the search spelled out: factory = None; for c in reversed(<factories>): if callable(c): factory = c; break
+    # (or over reversed(<bound apps>) with c = getattr(app_, 'render_factory', None) inside; None also from the loop's else)
+    lv = fl.leaves(leaf.value.func, leaf.stmt)
+    none = [l for l in lv if not l.opaque and isinstance(l.value, ast.Constant) and l.value.value is None]
+    found = [l for l in lv if l not in none]
+    if len(found) != 1 or not none:
+        return False
+    f0 = found[0]
+    sets = [d_.stmt for d_ in fl.reaching(key, leaf.stmt) if d_.kind == 'assign' and isinstance(d_.stmt, ast.Assign) and
+            not (isinstance(d_.value, ast.Constant) and d_.value.value is None)]
+    if len(sets) != 1:
+        return False
+    loops = [l for l in stmts_of(fl.fi.node) if isinstance(l, ast.For) and sets[0] in stmts_of(l)]
+    if len(loops) != 1:
+        return False
+    loop = loops[0]
+    var = norm(loop.target)
+    if f0.opaque and f0.stmt is loop:
+        by_value = newest_first(loop.iter, loop) and norm(sets[0].value) == var
+        cand = var
+    else:
+        it, _ = _deref(fl, loop.iter, loop)
+        by_value = not f0.opaque and isinstance(it, ast.Call) and call_name(it) == 'reversed' and len(it.args) == 1 and \
+            (norm(it.args[0]) in bound_apps or fl.text(it.args[0], loop) in bound_apps) and \
+            norm(f0.value) in ("getattr(%s, 'render_factory', None)" % var, '%s.render_factory' % var)
+        cand = norm(sets[0].value)
+    if not by_value:
+        return False
+    for s_ in loop.orelse:
+        if not (isinstance(s_, ast.Assign) and all(slot_key(t) == key for t in s_.targets) and isinstance(s_.value, ast.Constant) and s_.value.value is None):
+            return False
+    parent = route.parents.get(sets[0])
+    body = parent.body if isinstance(parent, ast.If) and sets[0] in parent.body else None
+    return body is not None and isinstance(body[-1], ast.Break) and not parent.orelse and \
+        fl.text(parent.test, parent) in ('callable(%s)' % cand, 'callable(%s)' % fl.text(sets[0].value, sets[0])) and parent in loop.body and \
+        len([x for x in stmts_of(loop) if isinstance(x, (ast.Break, ast.Continue, ast.Return))]) == 1
+
+
 def _r10e_render(rep, app, route):
     bi = route.func('BoundRoute.__init__')
     fl = Flow(bi)
     ps = bi.params()
-    names, pops = popped_flags(bi, 'rebind_render')
-    ur = _single_leaf(fl, 'self.unbound_route')
-    if ur is None:
-        raise AnalysisError('BoundRoute.__init__: self.unbound_route has no single definition')
-    ur_render = '%s.render' % fl.text(ur.value, ur.stmt)
+    flags = Flags(fl, bi)
+    pr = Prop(fl, flags)
+    ur_text = "getattr(%s, 'unbound_route', %s)" % (ps[1], ps[1])
+    ok_ur, _ = _slot_is(fl, route, 'self.unbound_route', ur_text, 'self.unbound_route')
+    if not ok_ur:
+        raise AnalysisError('BoundRoute.__init__: self.unbound_route is not the original unbound route (see R10.b)')
+    for k in fl.aliases('self.unbound_route'):
+        fl.subst[k] = _expr(ur_text)
+    ur_render = '%s.render' % ur_text
     prev_render = '%s.render' % ps[1]
+    if flags.default_is('rebind_render', True) is None:
+        raise AnalysisError("BoundRoute.__init__: no read of the bind keyword 'rebind_render' recognised")
     lv = fl.leaves(_expr('self.render'), 'exit')
     _require_followed(rep.repo, bi, lv, 'self.render')
-    ctx = dict((id(l), fl.cond_texts(l.conds)) for l in lv)
+    explicit = ('a', 'callable(%s)' % ur_render)
+    prev_callable = ('a', 'callable(%s)' % prev_render)
+    # re-binding applies when requested, or when nothing callable was bound yet
+    BR = ('|', [('a', 'keyword:rebind_render'), ('a', '%s is _noop_render' % prev_render), ('n', prev_callable)])
 
-    def cond(l, text, pol):
-        return any(p is pol and txt == text for txt, p, _ in ctx[id(l)])
-    is_explicit = 'callable(%s)' % ur_render
-    is_prev = 'callable(%s)' % prev_render
-    expl = [l for l in lv if cond(l, is_explicit, True)]
-    ok = len(expl) == 1 and not expl[0].opaque and fl.text(expl[0].value, expl[0].stmt) == ur_render
-    rep.check('R10.e', fkey(bi, 'explicit render wins'), ok, 'an explicit callable render always takes precedence' if ok else
-              'explicit callable renders no longer take precedence', route, bi.node)
-    fac = [l for l in lv if l not in expl and not l.opaque and isinstance(l.value, ast.Call) and len(l.value.args) == 1 and not l.value.keywords
+    def text(l):
+        return fl.text(l.value, l.stmt) if isinstance(l.stmt, ast.AST) else norm(l.value)
+    known = [l for l in lv if not l.opaque]
+    expl = [l for l in known if text(l) == ur_render]
+    fac = [l for l in known if isinstance(l.value, ast.Call) and len(l.value.args) == 1 and not l.value.keywords
            and slot_key(l.value.func) is not None and fl.text(l.value.args[0], l.stmt) == ur_render]
-
-    def bind_render_values(t):
-        if isinstance(t, ast.BoolOp) and isinstance(t.op, ast.Or):
-            return set(fl.text(v, fl.stmt_of(t)) for v in t.values)
-        return None
-    want = set(['%s is _noop_render' % prev_render, 'not callable(%s)' % prev_render])
-
-    def is_bind_render(vals):
-        return vals is not None and len(vals) == 3 and want <= vals and any(_is_flag(x, names, pops) for x in vals - want)
-    ok = len(fac) == 1 and cond(fac[0], is_explicit, False) and \
-        any(p is True and is_bind_render(bind_render_values(t)) for t, p in fac[0].conds)
-    rep.check('R10.e', fkey(bi, 'factory branch'), ok, 'a render argument is re-interpreted by a render factory only when re-binding applies' if ok else
-              'the render-factory branch is not conditioned on bind_render', route, fac[0].stmt if fac else bi.node)
-    carry = [l for l in lv if l not in expl and l not in fac]
-    keep = [l for l in carry if not l.opaque and fl.text(l.value, l.stmt) == prev_render and cond(l, is_prev, True)]
-    noop = [l for l in carry if not l.opaque and norm(l.value) == '_noop_render' and cond(l, is_prev, False)]
-    ok = len(carry) == 2 and len(keep) == 1 and len(noop) == 1
-    rep.check('R10.e', fkey(bi, 'carry-through branch'), ok, 'otherwise the previously bound renderer is carried through' if ok else
-              'the carry-through branch of render selection changed: %s' % [short(l.value, 40) for l in carry], route,
-              carry[0].stmt if carry and isinstance(carry[0].stmt, ast.AST) else bi.node)
-    ors = [n for n in walk_body(bi.node) if isinstance(n, ast.BoolOp) and isinstance(n.op, ast.Or) and
-           any(_is_flag(x, names, pops) for x in bind_render_values(n))]
-    ok = len(ors) == 1 and is_bind_render(bind_render_values(ors[0]))
-    rep.check('R10.e', fkey(bi, 'bind_render'), ok, 're-binding applies when requested or when nothing callable was bound yet' if ok else
-              'bind_render is not "rebind_render or route.render is _noop_render or not callable(route.render)"', route, ors[0] if ors else bi.node)
-    ok = False
-    if len(fac) == 1:
-        d = fl.single_def(slot_key(fac[0].value.func), fac[0].stmt)
-        v = d.value if d is not None else None
-        if isinstance(v, ast.Call) and call_name(v) == 'first' and len(v.args) >= 1 and norm(kwarg(v, 'key')) == 'callable':
-            a0, at0 = _deref(fl, v.args[0], d.stmt)
-            if isinstance(a0, ast.Call) and call_name(a0) == 'reversed' and len(a0.args) == 1:
-                l0, _ = _deref(fl, a0.args[0], at0)
-                ok = isinstance(l0, ast.ListComp) and len(l0.generators) == 1 and fl.text(l0.generators[0].iter, fl.stmt_of(l0)) == 'self.bound_apps'
+    keep = [l for l in known if text(l) == prev_render and l not in expl]
+    noop = [l for l in known if norm(l.value) == '_noop_render']
+    others = [l for l in lv if l not in expl and l not in fac and l not in keep and l not in noop]
+    try:
+        P = dict((id(l), pr.conds(l.conds)) for l in lv)
+        ok = len(expl) == 1 and pr.implies(P[id(expl[0])], explicit) and all(pr.implies(P[id(l)], ('n', explicit)) for l in lv if l is not expl[0])
+        rep.check('R10.e', fkey(bi, 'explicit render wins'), ok, 'an explicit callable render always takes precedence' if ok else
+                  'explicit callable renders no longer take precedence', route, bi.node)
+        ok = len(fac) == 1 and pr.implies(P[id(fac[0])], ('n', explicit)) and pr.implies(P[id(fac[0])], BR)
+        rep.check('R10.e', fkey(bi, 'factory branch'), ok, 'a render argument is re-interpreted by a render factory only when re-binding applies' if ok else
+                  'the render-factory branch is not conditioned on bind_render', route, fac[0].stmt if fac else bi.node)
+        ok = bool(keep) and bool(noop) and not others and all(pr.implies(P[id(l)], prev_callable) for l in keep) and \
+            all(pr.implies(P[id(l)], ('n', prev_callable)) for l in noop)
+        rep.check('R10.e', fkey(bi, 'carry-through branch'), ok, 'otherwise the previously bound renderer is carried through' if ok else
+                  'the carry-through branch of render selection changed: %s' % [short(l.value, 40) for l in keep + noop + others], route,
+                  (others or keep or noop or [None])[0].stmt if (others or keep or noop) and isinstance((others or keep or noop)[0].stmt, ast.AST) else bi.node)
+        # ... and *whenever* it applies (and a factory / a render argument exist): on the carry-through paths, under the
+        # other conditions of the factory branch, re-binding does not apply
+        ok = len(fac) == 1
+        if ok:
+            br_atoms = pr.atoms(BR)
+            side = [f for f in P[id(fac[0])] if not (pr.atoms(f) & br_atoms)]
+            ok = bool(keep + noop) and all(pr.implies(P[id(l)] + side, ('n', BR)) for l in keep + noop)
+        rep.check('R10.e', fkey(bi, 'bind_render'), ok, 're-binding applies when requested or when nothing callable was bound yet' if ok else
+                  'bind_render is not "rebind_render or route.render is _noop_render or not callable(route.render)"', route, bi.node)
+    except Unknown as e:
+        raise AnalysisError('BoundRoute.__init__: conditions of the render selection not understood (%s)' % e)
+    ok = len(fac) == 1 and _newest_factory(fl, pr, route, fac[0])
     rep.check('R10.e', fkey(bi, 'render factory'), ok, 'the render factory is that of the most recently bound (outermost) application that has one' if ok else
               'render factory selection is not first(reversed([...bound_apps...]), key=callable)', route, bi.node)
     stores = fl.defs.get('self.render', [])
-    ok = bool(lv) and not any(l.opaque for l in lv) and all(d.kind == 'assign' and d.idx is None for d in stores)
+    ok = bool(lv) and not any(l.opaque for l in lv) and all(d.kind == 'assign' for d in stores)
     rep.check('R10.e', fkey(bi, 'self.render'), ok, 'the selected renderer is stored and used for the chain' if ok else 'self.render is not the selected renderer', route, bi.node)
 
 
